@@ -89,7 +89,7 @@ const HOSTILE_FNS: [(&str, &str); 40] = [
     ("interface", ""), ("const", ""), ("goto", ""), ("init", "names:go-init"),
     ("t3", "names:temp-like"), ("t1", "names:temp-like"), ("ret2", "names:temp-like"), ("x0", "names:temp-like"),
     ("mtmp1", "names:temp-like"), ("cond1", "names:temp-like"),
-    ("main0", "names:runtime-helper"), ("missing", "names:runtime-helper"),
+    ("main0", "names:entry-wrapper"), ("missing", "names:runtime-helper"),
     ("a_b__c", ""),
 ];
 const HOSTILE_TYPES: [(&str, &str); 13] = [
